@@ -26,7 +26,14 @@ inductive GateVerdict where
   | equivocation
   /-- the shred goes on to the duplicate check / storage / reconstruction -/
   | pass
+  /-- `Err(WrongType)` (D15 `fix:`): the data/coding type does not fit the index; the shred is dropped before
+      anything is cached or stored, the leader is not blamed -/
+  | wrongType
 deriving Repr, DecidableEq
+
+/-- `RegularShredder::has_expected_type`: a data shred iff the index is below `DATA_SHREDS` (the blockstore and
+    the node are hard-wired to the regular shredder) -/
+def Shred.typeOk (s : Shred) : Bool := s.isData == decide (s.index < AgModel.Pad.DATA)
 
 def Gate.cached (g : Gate) (idx : Nat) : Option Commitment := (g.cache.find? (·.1 == idx)).map (·.2)
 
@@ -34,9 +41,10 @@ def Gate.cached (g : Gate) (idx : Nat) : Option Commitment := (g.cache.find? (·
 def Gate.cachedEntry (g : Gate) (idx : Nat) : Option Cached :=
   (g.cached idx).map fun c => ⟨c, (g.sigs.find? (·.1 == idx)).map (·.2)⟩
 
-/-- `SlotBlockData::add_shred_from_dissemination` up to and including the last-slice check of
+/-- (the gate of the pinned snapshot, before the D15 `fix:`: no look at the data/coding type; kept as the core of
+    `Gate.add` and for the witness theorems) `SlotBlockData::add_shred_from_dissemination` up to and including the last-slice check of
     `BlockData::add_shred`, followed by `flag_leader_misbehavior` on `Equivocation`. -/
-def Gate.add (g : Gate) (v : VShred) : Gate × GateVerdict :=
+def Gate.addOld (g : Gate) (v : VShred) : Gate × GateVerdict :=
   if g.misbehaved then (g, .invalidShred)
   else
     let idx := v.shred.header.sliceIdx
@@ -68,14 +76,23 @@ def Gate.add (g : Gate) (v : VShred) : Gate × GateVerdict :=
         if (idx < l && !isLast) || (idx == l && isLast) then (g', .pass)
         else ({ g' with misbehaved := true }, .equivocation)
 
+/-- `SlotBlockData::add_shred_from_dissemination` + `BlockData::add_shred` up to and including the last-slice check
+    (after the D15 `fix:`): a flagged leader's shreds are refused; then a shred whose data/coding type does not fit
+    its index is dropped (`WrongType`: nothing cached, nothing stored, nobody flagged); then the pinned gate. -/
+def Gate.add (g : Gate) (v : VShred) : Gate × GateVerdict :=
+  if g.misbehaved then (g, .invalidShred)
+  else if !v.shred.typeOk then (g, .wrongType)
+  else g.addOld v
+
 /-- `Alpenglow::handle_disseminator_shred` of a node that is not the slot's leader, as far as the blockstore's
     gate is concerned (`consensus.rs` l.384-424): validate with the blockstore's cached commitment for the slice
     (which remembers the signature verified for it);
-    an accepted shred goes to `add_shred_from_dissemination`; (after the D16 `fix:`) a validly signed
+    an accepted shred whose data/coding type fits its index goes to `add_shred_from_dissemination` (one whose type
+    does not is dropped: D15 `fix:`); (after the D16 `fix:`) a validly signed
     *conflicting* commitment flags the leader; a bad signature is dropped silently. -/
 def Gate.nodeHandle (env : Env) (g : Gate) (s : Shred) (leaderPk : Nat) : Gate :=
   match validate env s (g.cachedEntry s.header.sliceIdx) leaderPk with
-  | .ok v => (g.add v).1
+  | .ok v => if !v.shred.typeOk then g else (g.add v).1   -- neither forwarded nor stored (D15 `fix:`)
   | .error .equivocation => { g with misbehaved := true }
   | .error .invalidSignature => g
 
